@@ -52,12 +52,14 @@ def cargo_build(pkg_dir, target_dir, args, rustflags="", toolchain=None, extra_e
     return rc, out, err
 
 
-def build_monitor(binname, hooks=True, release_checked=False):
+def build_monitor(binname, hooks=True, release_checked=False, release_unchecked=False):
     """Build one monitor binary of the harness against /repo's current working tree.
-    release_checked: release profile (debug_assertions off) + rrtk/dim_check_release (checking still on)."""
-    tdir = os.path.join(BUILD, ("harness" if hooks else "harness-nohooks") + ("-relchk" if release_checked else ""))
+    release_checked: release profile (debug_assertions off) + rrtk/dim_check_release (checking still on).
+    release_unchecked: release profile without dim_check_release: dimension checking compiled OUT (Unit is zero-sized)."""
+    tdir = os.path.join(BUILD, ("harness" if hooks else "harness-nohooks") + ("-relchk" if release_checked else "-unchk" if release_unchecked else ""))
     flags = "--cfg rrtk_verif" if hooks else ""
-    args = ["--bin", binname] + (["--release", "--features", "dim_release"] if release_checked else [])
+    args = ["--bin", binname] + (["--release", "--features", "dim_release"] if release_checked else ["--release"] if release_unchecked else [])
+    release_checked = release_checked or release_unchecked
     rc, out, err = cargo_build(HARNESS, tdir, args, rustflags=flags)
     if rc != 0:
         raise Inconclusive("monitor %s does not build against the current tree:\n%s" % (binname, err[-3000:]))
